@@ -94,8 +94,25 @@ def schedule(endpoints, graph, fs, spec_hashes, status_func, submit_func):
     cache = {}
 
     def _cached_schedule(target):
-        if target not in cache:
-            cache[target] = _schedule(target)
+        # Schedule the dependencies of `target` (in the same order as the
+        # recursion in _schedule would) with an explicit stack, so that long
+        # dependency chains do not overflow the interpreter stack.
+        stack = [target]
+        while stack:
+            node = stack[-1]
+            if node in cache:
+                stack.pop()
+                continue
+            pending = [
+                dep
+                for dep in sorted(graph.dependencies[node], key=lambda t: t.name)
+                if dep not in cache
+            ]
+            if pending:
+                stack.extend(reversed(pending))
+                continue
+            cache[node] = _schedule(node)
+            stack.pop()
         return cache[target]
 
     for target in sorted(endpoints, key=lambda t: t.name):
